@@ -30,9 +30,10 @@ type byteOp struct {
 	V   int    `json:"v"`
 }
 type byteCase struct {
-	Seed int      `json:"seed"`
-	Form string   `json:"form"`
-	Ops  []byteOp `json:"ops"`
+	Seed  int      `json:"seed"`
+	Form  string   `json:"form"`
+	Ops   []byteOp `json:"ops"`
+	Input string   `json:"input"` // replay of a fuzz-found input: the bytes themselves (hex), form "fuzz-<form>"
 }
 
 var (
@@ -303,6 +304,19 @@ func opsLabel(ops []byteOp) string {
 
 // inputsFor builds the reader inputs of one byte-level case and the entry points that see the mutant.
 func inputsFor(c *byteCase) (*inputs, []string, []byte) {
+	if strings.HasPrefix(c.Form, "fuzz-") {
+		data := vt.Unhex(c.Input)
+		switch c.Form {
+		case "fuzz-bin":
+			return fromBytes(data, []byte("{}")), []string{"clear-bin", "nosecrets-bin", "enc-bin"}, data
+		case "fuzz-json":
+			return &inputs{js: data}, []string{"clear-json", "nosecrets-json"}, data
+		case "fuzz-encbin":
+			return &inputs{encBin: data, encadBin: data}, []string{"enc-bin", "encad-bin", "encctx-bin"}, data
+		case "fuzz-encjson":
+			return &inputs{encJS: data, encadJS: data}, []string{"enc-json", "encad-json", "encctx-json"}, data
+		}
+	}
 	seeds := seedKeysets()
 	ks := seeds[c.Seed%len(seeds)]
 	base := fromProto(ks)
